@@ -9,14 +9,22 @@ package deadline_test
 //	op [point, kind, t, d]   point 1 pick (the dialer never completes), 2 stream quota
 //	     (MAX_CONCURRENT_STREAMS=1 held by another RPC), 3 flow control (the handler does not
 //	     read; 16 KiB messages until SendMsg blocks), 4 Header() (the handler sends nothing),
-//	     5 RecvMsg (the handler sends its header only); kind 1 cancel after t ns, 2 let the
-//	     deadline d ns pass
+//	     5 RecvMsg (the handler sends its header only), 6 a UNARY RPC (cc.Invoke) in the middle
+//	     of a response message (the peer is a scripted raw HTTP/2 endpoint that sends response
+//	     headers, the 5-byte prefix announcing 100 bytes and 10 of them, then stalls);
+//	     kind 1 cancel after t ns, 2 let the deadline d ns pass
 //	obs [status code, ns between the context becoming done and the blocked call returning,
 //	     1 iff a handler ran, handler deadline - client deadline (ns), 1 iff the handler's
-//	     context was done once the client call had returned]
+//	     context was done once the client call had returned (point 6: 1 iff the raw peer had
+//	     received RST_STREAM for the RPC by then)]
+//
+// A point-6 RPC that is still blocked one virtual second after its context ended is released
+// by the peer (rest of the message + OK trailers); its latency and status then show the hang.
 
 import (
+	"bytes"
 	"context"
+	"encoding/binary"
 	"errors"
 	"io"
 	"net"
@@ -25,6 +33,8 @@ import (
 	"testing/synctest"
 	"time"
 
+	"golang.org/x/net/http2"
+	"golang.org/x/net/http2/hpack"
 	"google.golang.org/grpc"
 	"google.golang.org/grpc/credentials/insecure"
 	"google.golang.org/grpc/encoding"
@@ -118,6 +128,81 @@ func vDeadlinePair(env *vDeadlineEnv, opts ...grpc.ServerOption) (*grpc.ClientCo
 	return cc, func() { cc.Close(); srv.Stop(); lis.Close() }
 }
 
+// vDeadlineRaw is the scripted raw HTTP/2 peer of blocking point 6.
+type vDeadlineRaw struct {
+	mu   sync.Mutex
+	fr   *http2.Framer // of the connection that carried the last request
+	last uint32        // stream id of the last request
+	rst  map[uint32]bool
+}
+
+func (rs *vDeadlineRaw) serve(c net.Conn) {
+	defer c.Close()
+	preface := make([]byte, len(http2.ClientPreface))
+	if _, err := io.ReadFull(c, preface); err != nil {
+		return
+	}
+	fr := http2.NewFramer(c, c)
+	rs.mu.Lock()
+	err := fr.WriteSettings()
+	rs.mu.Unlock()
+	if err != nil {
+		return
+	}
+	for {
+		f, err := fr.ReadFrame()
+		if err != nil {
+			return
+		}
+		rs.mu.Lock()
+		switch f := f.(type) {
+		case *http2.SettingsFrame:
+			if !f.IsAck() {
+				fr.WriteSettingsAck()
+			}
+		case *http2.PingFrame:
+			if !f.IsAck() {
+				fr.WritePing(true, f.Data)
+			}
+		case *http2.RSTStreamFrame:
+			rs.rst[f.StreamID] = true
+		case *http2.HeadersFrame:
+			if f.HeadersEnded() {
+				var hb bytes.Buffer
+				enc := hpack.NewEncoder(&hb)
+				enc.WriteField(hpack.HeaderField{Name: ":status", Value: "200"})
+				enc.WriteField(hpack.HeaderField{Name: "content-type", Value: "application/grpc+verifraw22"})
+				fr.WriteHeaders(http2.HeadersFrameParam{StreamID: f.StreamID, BlockFragment: hb.Bytes(), EndHeaders: true})
+				msg := make([]byte, 5+10)
+				binary.BigEndian.PutUint32(msg[1:5], 100)
+				fr.WriteData(f.StreamID, false, msg)
+				rs.fr, rs.last = fr, f.StreamID
+			}
+		}
+		rs.mu.Unlock()
+	}
+}
+
+// finish the stalled response of the last request: rest of the payload and OK trailers
+func (rs *vDeadlineRaw) release() {
+	rs.mu.Lock()
+	defer rs.mu.Unlock()
+	if rs.fr == nil {
+		return
+	}
+	rs.fr.WriteData(rs.last, false, make([]byte, 90))
+	var hb bytes.Buffer
+	enc := hpack.NewEncoder(&hb)
+	enc.WriteField(hpack.HeaderField{Name: "grpc-status", Value: "0"})
+	rs.fr.WriteHeaders(http2.HeadersFrameParam{StreamID: rs.last, BlockFragment: hb.Bytes(), EndHeaders: true, EndStream: true})
+}
+
+func (rs *vDeadlineRaw) gotRST() bool {
+	rs.mu.Lock()
+	defer rs.mu.Unlock()
+	return rs.fr != nil && rs.rst[rs.last]
+}
+
 func vDeadlineExecIn(ops [][]int64) ([][]int64, bool, []string) {
 	rel := make(chan struct{})
 	env := &vDeadlineEnv{release: rel}
@@ -134,6 +219,18 @@ func vDeadlineExecIn(ops [][]int64) ([][]int64, bool, []string) {
 		panic("verif: NewClient: " + err.Error())
 	}
 	ccC.Connect()
+	// D: the raw HTTP/2 peer of point 6
+	raw := &vDeadlineRaw{rst: map[uint32]bool{}}
+	ccD, err := grpc.NewClient("passthrough:///raw", grpc.WithTransportCredentials(insecure.NewCredentials()),
+		grpc.WithContextDialer(func(ctx context.Context, _ string) (net.Conn, error) {
+			c1, c2 := net.Pipe()
+			go raw.serve(c2)
+			return c1, nil
+		}))
+	if err != nil {
+		panic("verif: NewClient: " + err.Error())
+	}
+	ccD.Connect()
 	synctest.Wait()
 	desc := &grpc.StreamDesc{StreamName: "M", ClientStreams: true, ServerStreams: true}
 	copt := grpc.CallContentSubtype("verifraw22")
@@ -150,6 +247,7 @@ func vDeadlineExecIn(ops [][]int64) ([][]int64, bool, []string) {
 		close(rel)
 		hcancel()
 		ccC.Close()
+		ccD.Close()
 		closeA()
 		closeB()
 		synctest.Wait()
@@ -158,7 +256,7 @@ func vDeadlineExecIn(ops [][]int64) ([][]int64, bool, []string) {
 	var out [][]int64
 	points := map[int64]bool{}
 	for _, op := range ops {
-		if len(op) != 4 || op[0] < 1 || op[0] > 5 || (op[1] != 1 && op[1] != 2) || op[2] <= 0 || op[2] >= op[3] {
+		if len(op) != 4 || op[0] < 1 || op[0] > 6 || (op[1] != 1 && op[1] != 2) || op[2] <= 0 || op[2] >= op[3] {
 			continue
 		}
 		point, kind, t, d := op[0], op[1], time.Duration(op[2]), time.Duration(op[3])
@@ -182,6 +280,15 @@ func vDeadlineExecIn(ops [][]int64) ([][]int64, bool, []string) {
 				cc = ccC
 			case 2:
 				cc = ccB
+			}
+			if point == 6 {
+				var req, resp []byte
+				err = ccD.Invoke(ctx, "/verif.S/U", &req, &resp, copt, grpc.WaitForReady(true))
+				rmu.Lock()
+				retAt = time.Now()
+				code = int64(status.Code(err))
+				rmu.Unlock()
+				return
 			}
 			var st grpc.ClientStream
 			st, err = cc.NewStream(ctx, desc, "/verif.S/M", copt, grpc.WaitForReady(true))
@@ -219,7 +326,16 @@ func vDeadlineExecIn(ops [][]int64) ([][]int64, bool, []string) {
 			cancel()
 			expect = t
 		}
-		<-fin
+		if point == 6 {
+			select {
+			case <-fin:
+			case <-time.After(time.Until(start.Add(expect)) + time.Second):
+				raw.release()
+				<-fin
+			}
+		} else {
+			<-fin
+		}
 		synctest.Wait()
 		rmu.Lock()
 		lat := int64(retAt.Sub(start) - expect)
@@ -239,6 +355,9 @@ func vDeadlineExecIn(ops [][]int64) ([][]int64, bool, []string) {
 			}
 		}
 		seen.mu.Unlock()
+		if point == 6 && raw.gotRST() {
+			hcan = 1
+		}
 		cancel()
 		out = append(out, []int64{c, lat, ran, delta, hcan})
 		points[point] = true
@@ -256,10 +375,26 @@ func vDeadlineExec(cfg []int64, ops [][]int64) (obs [][]int64, nt bool, tags []s
 func vDeadlineGen(r *vRand, tier string, idx int) ([]int64, [][]int64) {
 	var ops [][]int64
 	ds := []int64{50000000, 1000000000, 1234567, 123456789123, 99999999, 100000001, 3600000000000, 7000000001, 60000000001}
+	// remaining times of exactly 10^8 ns / us / ms / s / min: the largest values that do NOT fit
+	// the 8 digits of grpc-timeout in their unit (virtual time makes the remaining time at send
+	// exact).  The last two only with a cancellation (the virtual clock cannot run that far).
+	tens := []int64{100000000, 100000000000, 100000000000000, 100000000000000000, 6000000000000000000}
 	if idx == 0 {
-		for p := int64(1); p <= 5; p++ {
+		for p := int64(1); p <= 6; p++ {
 			for k := int64(1); k <= 2; k++ {
 				ops = append(ops, []int64{p, k, 1000000, ds[(p+k)%int64(len(ds))]})
+			}
+		}
+		return nil, ops
+	}
+	if idx == 1 {
+		for i, d := range tens {
+			for p := int64(3); p <= 6; p++ {
+				k := int64(2)
+				if i >= 3 || (int64(i)+p)%3 == 0 {
+					k = 1
+				}
+				ops = append(ops, []int64{p, k, 1000000, d})
 			}
 		}
 		return nil, ops
@@ -267,11 +402,18 @@ func vDeadlineGen(r *vRand, tier string, idx int) ([]int64, [][]int64) {
 	n := 6 + r.Intn(6)
 	for i := 0; i < n; i++ {
 		d := ds[r.Intn(len(ds))]
+		k := int64(1 + r.Intn(2))
 		if r.Chance(40) {
 			d = 1000000 + r.I64n(200000000000)
+		} else if r.Chance(30) {
+			j := r.Intn(len(tens))
+			d = tens[j]
+			if j >= 3 {
+				k = 1
+			}
 		}
 		t := 1 + r.I64n(min(d-1, 20000000))
-		ops = append(ops, []int64{int64(1 + r.Intn(5)), int64(1 + r.Intn(2)), t, d})
+		ops = append(ops, []int64{int64(1 + r.Intn(6)), k, t, d})
 	}
 	return nil, ops
 }
